@@ -279,12 +279,33 @@ static int check_eqhash(void) {
   return bad;
 }
 
+/* light oracle: the slots are compared with the reference model through the white-box view only - not one library call is
+** made between two operations of the alphabet, so that whatever an operation leaves behind in hidden state (a cursor, a
+** memo, a scratch buffer) is still there when the next operation runs.  get/mem are explicit operations in this mode. */
+static int light;
+static int check_slots(var t_, struct model* m, const char* who) {
+  struct Table* t = t_;
+  int seen[MAXK] = {0}; size_t n = 0;
+  for (size_t i = 0; i < t->nslots; i++) {
+    if (Table_Key_Hash(t, i) == 0) continue;
+    int ki = key_index(Table_Key(t, i));
+    if (ki < 0) { vf_violation(L("slots-foreign"), NULL, "%s: a slot holds a key outside the universe", who); return 1; }
+    if (seen[ki]++) { vf_violation(L("slots-duplicate"), NULL, "%s: key#%d is stored twice", who, ki); return 1; }
+    if (!m->present[ki]) { vf_violation(L("slots-ghost"), NULL, "%s: absent key#%d is stored", who, ki); return 1; }
+    if (val_of(Table_Val(t, i)) != m->val[ki]) { vf_violation(L("slots-value"), NULL, "%s: key#%d stores %" PRId64 ", last set value is %d", who, ki, val_of(Table_Val(t, i)), m->val[ki]); return 1; }
+    n++;
+  }
+  if (n != (size_t)mcount(m) || t->nitems != n) { vf_violation(L("slots-count"), NULL, "%s: %zu bindings stored (nitems %zu), reference has %d", who, n, t->nitems, mcount(m)); return 1; }
+  if (t->ktype != KT || t->vtype != VT) { vf_violation(L("types"), NULL, "%s: key/value type changed", who); return 1; }
+  return 0;
+}
+
 static int check(void) {
   if (audit(TA, "A")) return 1;
-  if (check_map(TA, &MA, "A")) return 1;
+  if (light ? check_slots(TA, &MA, "A") : check_map(TA, &MA, "A")) return 1;
   if (TB) {
     if (audit(TB, "B")) return 1;
-    if (check_map(TB, &MB, "B (must be independent of A)")) return 1;
+    if (light ? check_slots(TB, &MB, "B (must be independent of A)") : check_map(TB, &MB, "B (must be independent of A)")) return 1;
   }
   if (propC05 && check_ledger()) return 1;
   if (propC10 && check_eqhash()) return 1;
@@ -296,11 +317,12 @@ static int check(void) {
 enum { OP_RESIZE0, OP_RESIZELEN, OP_RESIZEGROW, OP_COPY, OP_ASSIGN_EMPTY, OP_ASSIGN_FULL,
        OP_B_COPY, OP_B_ASSIGN_FROM_A, OP_A_ASSIGN_FROM_B, OP_B_DEL, OP_B_SET, OP_B_REM, OP_SWAP,
        OP_F_GET_WRONGKEY, OP_F_SET_WRONGKEY, OP_F_SET_WRONGVAL, OP_F_REM_WRONGKEY, OP_F_MEM_WRONGKEY, OP_F_RESIZE_SMALL,
-       OP_F_GET_NULL, OP_F_SET_NULLVAL,
+       OP_F_GET_NULL, OP_F_SET_NULLVAL, OP_F_ASSIGN_INT, OP_F_ASSIGN_STR,
        OP_NMISC };
 
 static int alias_ops = 1;
-static int nops_total(void) { return 3 * K + OP_NMISC + (alias_ops ? 3 * K : 0); }
+static int nops_total(void) { return 3 * K + OP_NMISC + (alias_ops ? 3 * K : 0) + (light ? 2 * K : 0); }
+static int query_base(void) { return 3 * K + OP_NMISC + (alias_ops ? 3 * K : 0); }
 
 /* the key / value object stored inside the table for universe key k (NULL if absent) */
 static var stored_key(var t_, int k) {
@@ -315,6 +337,7 @@ static var stored_val(var t_, int k) {
 }
 
 static void opname(int op, char* buf, size_t cap) {
+  if (light && op >= query_base()) { int a = op - query_base(); snprintf(buf, cap, a < K ? "get(k%d)" : "mem(k%d)", a % K); return; }
   if (op < 2 * K) { snprintf(buf, cap, "set(k%d,%d)", op / 2, op % 2); return; }
   if (op < 3 * K) { snprintf(buf, cap, "rem(k%d)", op - 2 * K); return; }
   if (op >= 3 * K + OP_NMISC) {
@@ -325,7 +348,7 @@ static void opname(int op, char* buf, size_t cap) {
   static const char* nm[] = { "resize(0)", "resize(len)", "resize(2len+3)", "A=copy(A)", "A=assign(new,A)", "A=assign(nonempty,A)",
     "B=copy(A)", "assign(B,A)", "assign(A,B)", "del(B)", "set(B,k0,1)", "rem(B,k0)", "swap(A,B)",
     "get(wrong-type key)", "set(wrong-type key)", "set(wrong-type val)", "rem(wrong-type key)", "mem(wrong-type key)", "resize(len-1)",
-    "get(NULL)", "set(k0,NULL)" };
+    "get(NULL)", "set(k0,NULL)", "assign(A, an Int)", "assign(A, a String)" };
   snprintf(buf, cap, "%s", nm[op - 3 * K]);
 }
 
@@ -333,6 +356,12 @@ static void opname(int op, char* buf, size_t cap) {
 static size_t observable(var t, char* buf, size_t cap) {
   size_t o = 0; buf[0] = 0;
   if (!t) return snprintf(buf, cap, "-");
+  if (light) {     /* the same, read from the slots */
+    struct Table* tt = t;
+    o += snprintf(buf + o, cap - o, "len%zu:", tt->nitems);
+    for (size_t i = 0; i < tt->nslots && o + 32 < cap; i++) if (Table_Key_Hash(tt, i)) o += snprintf(buf + o, cap - o, "[%d=%" PRId64 "]", key_index(Table_Key(tt, i)), val_of(Table_Val(tt, i)));
+    return o;
+  }
   o += snprintf(buf + o, cap - o, "len%zu:", len(t));
   var it = iter_init(t); size_t guard = 0;
   while (it != Terminal && guard++ < 64 && o + 32 < cap) {
@@ -361,6 +390,25 @@ static int expect_fail(var e, var a1, var a2, var a3, const char* what, const ch
 static int apply(int op) {
   var e;
   char before[4096];
+  if (light && op >= query_base()) {
+    int a = op - query_base(), k = a % K;
+    if (a < K) {
+      lastkind = MA.present[k] ? "get-present" : "get-absent";
+      volatile var got = NULL;
+      e = VF_CATCH(got = get(TA, keyobj[k]));
+      if (MA.present[k]) {
+        if (e) { vf_violation(L("get-raises"), NULL, "get(key#%d) raised %s for a present key", k, vf_exc_name(e)); return VF_BAD; }
+        if (val_of(got) != MA.val[k]) { vf_violation(L("get-value"), NULL, "get(key#%d)=%" PRId64 ", last set value is %d", k, val_of(got), MA.val[k]); return VF_BAD; }
+      } else if (e != KeyError) { vf_violation(L("get-absent"), NULL, "get(key#%d) of an absent key gave %s, KeyError expected", k, vf_exc_name(e)); return VF_BAD; }
+      return VF_OK;
+    }
+    lastkind = "mem";
+    volatile bool isin = false;
+    e = VF_CATCH(isin = mem(TA, keyobj[k]));
+    if (e) { vf_violation(L("mem-raises"), NULL, "mem(key#%d) raised %s", k, vf_exc_name(e)); return VF_BAD; }
+    if ((int)isin != MA.present[k]) { vf_violation(L("mem"), NULL, "mem(key#%d)=%d, reference says %d", k, (int)isin, MA.present[k]); return VF_BAD; }
+    return VF_OK;
+  }
   if (op < 2 * K) {
     int k = op / 2, v = op % 2;
     lastkind = MA.present[k] ? "set-existing" : "set-new";
@@ -532,6 +580,11 @@ static int apply(int op) {
     lastkind = "set-null-val";
     e = VF_CATCH(set(TA, keyobj[0], NULL));
     return expect_fail(e, ValueError, TypeError, TypeError, "set with a NULL value", before);
+  case OP_F_ASSIGN_INT: case OP_F_ASSIGN_STR:
+    /* a source that is no container at all (no Len, Iter, Get): refused before anything is cleared */
+    lastkind = "assign-from-non-container";
+    e = VF_CATCH(assign(TA, m == OP_F_ASSIGN_INT ? (var)$I(5) : (var)$S("xy")));
+    return expect_fail(e, ClassError, ClassError, ClassError, "assign from an object that is not a container", before);
   }
   return VF_SKIP;
 }
@@ -646,6 +699,7 @@ int main(int argc, char** argv) {
   if (K > MAXK) K = MAXK;
   two = (int)vf_param_i("two", 0);
   alias_ops = (int)vf_param_i("alias", 1);
+  light = (int)vf_param_i("light", 0);
   const char* prop = vf_param("prop", "C02");
   propC05 = strcmp(prop, "C05") == 0;
   propC10 = strcmp(prop, "C10") == 0;
